@@ -386,6 +386,7 @@ def run(ck):
     ck.source_tie("flowwhile")
     ck.source_tie("flowfn")
     ck.source_tie("flowif")
+    ck.source_tie("smallnat")
     ck.hygiene()
     ck.ocaml_build()
     ck.harness_build(["c04"])
